@@ -173,6 +173,90 @@ def run_batches(rep, binaries, items, what, per):
     return n
 
 
+def build_x(bits, e, neg):
+    src = ["var m = 0;", 'for c in "%s" { m = m * 2; if c == "1" { m = m + 1; } }' % "".join(map(str, bits)),
+           "var x = m; i = 0;",
+           "while i < %d { x = x %s 2; i = i + 1; }" % (abs(e), "*" if e >= 0 else "/")]
+    if neg:
+        src.append("x = -x;")
+    return src
+
+
+def printed_literal_layer(rep, binaries, seed, n, shards=4):
+    """Two phases.  1: numbers built from TLC-drawn bit patterns are printed.  2: the printed text comes back as a SOURCE LITERAL and as the
+    argument of to_num in a second program and must be the number (the property's round trip, plus "a literal denotes the double nearest to
+    its decimal text": the double nearest to a text that reads back as x is x).  This is the only place where literals of 16-17 significant
+    digits - the length the shortest-round-trip printer produces - are compiled."""
+    jobs = []
+    with ThreadPoolExecutor(max_workers=shards) as ex:
+        for s_ in range(shards):
+            jobs.append(ex.submit(tlc_cases, rep, "patterns%d" % s_, seed=seed * 100 + 70 + s_, part="patterns", nrandom=n // shards))
+        results = [j.result() for j in jobs]
+    cases = [c for cs, _ in results for c in cs]
+    states = sum(d for _, d in results)
+    ncmp = 0
+    per = 40
+    for bname, binary in binaries:
+        chunks = [cases[i:i + per] for i in range(0, len(cases), per)]
+        progs1 = []
+        for chunk in chunks:
+            lines = [PRELUDE]
+            for c in chunk:
+                r = c["r"]
+                lines += ["{"] + build_x(r["bits"], r["e"], r["neg"]) + ["print(x);", "print(String.from(x).to_num() == x);", "}"]
+            progs1.append("\n".join(lines) + "\n")
+        items = [{"id": i, "main": src, "gc": "default", "stack_mb": 64} for i, src in enumerate(progs1)]
+        printed = []
+        for chunk, src, r in zip(chunks, progs1, Pool(binary, "run", timeout=120).map(items)):
+            out = r["runs"][0]["out"] if "runs" in r and r["runs"][0].get("ok") else None
+            if out is None or len(out) != 2 * len(chunk):
+                rep.violation("printed-literal round trip (%s build): the printing program did not run to its end: %r" % (bname, {k: r[k] for k in r if k != "events"}), {"source": src})
+                printed.append(None)
+                continue
+            texts = []
+            for j, c in enumerate(chunk):
+                t, back = out[2 * j], out[2 * j + 1]
+                ncmp += 1
+                if back != "true":
+                    rep.violation("printed-literal round trip (%s build): String.from(x).to_num() == x is %s for the number %r (printed %s)" % (bname, back, c["r"], t),
+                                  {"case": c, "printed": t})
+                if not re.fullmatch(r"-?\d+(\.\d+)?", t):
+                    rep.violation("printed-literal round trip (%s build): the printed text %r of %r is not a plain decimal" % (bname, t, c["r"]), {"case": c, "printed": t})
+                    t = None
+                texts.append(t)
+            printed.append(texts)
+        progs2, keep = [], []
+        for chunk, texts in zip(chunks, printed):
+            if texts is None:
+                continue
+            lines = [PRELUDE]
+            sel = []
+            for c, t in zip(chunk, texts):
+                if t is None:
+                    continue
+                r = c["r"]
+                lines += ["{"] + build_x(r["bits"], r["e"], r["neg"]) + ["print((%s) == x);" % t, 'print("%s".to_num() == x);' % t, 'print("${(%s)}" == "%s");' % (t, t), "}"]
+                sel.append((c, t))
+            progs2.append("\n".join(lines) + "\n")
+            keep.append(sel)
+        items = [{"id": i, "main": src, "gc": "default", "stack_mb": 64} for i, src in enumerate(progs2)]
+        for sel, src, r in zip(keep, progs2, Pool(binary, "run", timeout=120).map(items)):
+            out = r["runs"][0]["out"] if "runs" in r and r["runs"][0].get("ok") else None
+            if out is None or len(out) != 3 * len(sel):
+                rep.violation("printed-literal round trip (%s build): the program holding the printed texts as literals did not run to its end: %r"
+                              % (bname, {k: r[k] for k in r if k != "events"}), {"source": src})
+                continue
+            for j, (c, t) in enumerate(sel):
+                for k, what in enumerate(("written as a source literal it denotes the number", "given to to_num it is the number", "the literal prints as the same text")):
+                    ncmp += 1
+                    if out[3 * j + k] != "true":
+                        rep.violation("printed-literal round trip (%s build): the number %r prints as %s, but: %s -> %s" % (bname, c["r"], t, what, out[3 * j + k]),
+                                      {"case": c, "printed": t, "which": what})
+                        break
+    log("[c19] printed text as literal: %d numbers, %d comparisons" % (len(cases), ncmp))
+    return ncmp, states, len(cases)
+
+
 def conversion_layer(rep, binaries, tier, seed):
     """String.to_num / String.from against NumFormat.tla without the lattice sweep: the boundary numbers (2^53 / 2^63 neighbours, powers of two
     across the range, subnormals - their exact expansions, midpoints and quarter points are long digit strings), a few TLC-drawn random
@@ -203,6 +287,9 @@ def conversion_layer(rep, binaries, tier, seed):
         src, exp = text_lines(c)
         titems.append((src, exp, None, c))
     n += run_batches(rep, binaries, titems, "to_num text", 150)
+    n4, pstates, npat = printed_literal_layer(rep, binaries, seed + 1, 600 if quick else 6000)
+    n += n4
+    states += pstates
     log("[c19] conversion layer: %d numbers, %d texts, %d comparisons" % (len(numbers), len(texts), n))
     return n, states, len(numbers), len(texts)
 
@@ -247,6 +334,9 @@ def main(tier, seed):
         src, exp = text_lines(c)
         titems.append((src, exp, None, c))
     n3 = run_batches(rep, binaries, titems, "to_num text", 150)
+    n4, pstates, npat = printed_literal_layer(rep, binaries, seed, 2000 if quick else 20000)
+    states += pstates
+    n3 += n4
     nscan, sstates = c03.scanner_part(rep, dev, tier, groups=["Numbers"])
     kinds = {}
     for c in numbers:
@@ -256,6 +346,7 @@ def main(tier, seed):
     rep.coverage["traces_validated_against_impl"] = n1 + n2 + n3 + nscan
     rep.coverage["numbers"] = kinds
     rep.coverage["texts"] = len(texts)
+    rep.coverage["printed_texts_as_literals"] = npat
     rep.coverage["scanner_sources"] = nscan
     rep.coverage["exhaustive"] = True
     rep.sample({"kind": "number", "case": numbers[len(numbers) // 2]["c"], "printed": numbers[len(numbers) // 2]["r"]["fmt"]})
